@@ -372,11 +372,15 @@ class SubsampledArray(CompressedArray):
 
         """
         # If the first or last element is requested then we don't need
-        # to uncompress
-        try:
-            return self._first_or_last_element(indices)
-        except IndexError:
-            pass
+        # to uncompress. (This does not apply to bounds tie points
+        # with two subsampled dimensions, for which the last element
+        # of the bounds - vertex (j+1, i) of the last cell - is not
+        # the last bounds tie point - vertex (j+1, i+1).)
+        if not (self.bounds and len(self.get_tie_point_indices()) > 1):
+            try:
+                return self._first_or_last_element(indices)
+            except IndexError:
+                pass
 
         # ------------------------------------------------------------
         # Method: Uncompress the entire array and then subspace it
